@@ -120,3 +120,31 @@ Qed.
 (* Operator.Check never revives or rewinds: an ended operator is returned unchanged *)
 Lemma op_check_end o r : op_is_end o = true -> op_check o r = (o, None).
 Proof. unfold op_check. intros ->. reflexivity. Qed.
+
+(* the status functions never move the cursor or change the steps *)
+Lemma op_to_cur o d : o_cur (fst (op_to o d)) = o_cur o /\ o_steps (fst (op_to o d)) = o_steps o.
+Proof. unfold op_to. destruct (valid_trans (o_st o) d); cbn; auto. Qed.
+
+Lemma check_success_cur o : o_cur (fst (check_success o)) = o_cur o /\ o_steps (fst (check_success o)) = o_steps o.
+Proof.
+  unfold check_success. destruct (length (o_steps o) <=? o_cur o)%nat; cbn [fst]; [|auto].
+  pose proof (op_to_cur o SUCCESS) as H. destruct (op_to o SUCCESS) as [o' ok]. exact H.
+Qed.
+
+Lemma check_timeout_cur o : o_cur (fst (check_timeout o)) = o_cur o /\ o_steps (fst (check_timeout o)) = o_steps o.
+Proof.
+  unfold check_timeout. pose proof (check_success_cur o) as H. destruct (check_success o) as [o1 succ]. cbn [fst] in H.
+  destruct succ; cbn [fst]; [exact H|].
+  destruct (o_st o1); cbn [fst]; try exact H.
+  destruct (o_slow o1); cbn [fst]; [|exact H].
+  destruct (op_to_cur o1 TIMEOUT) as [A B]. destruct H as [C D]. split; congruence.
+Qed.
+
+(* the step Operator.Check returns is the one at the returned operator's cursor *)
+Lemma op_check_cursor o r oc s : op_check o r = (oc, Some s) -> nth_error (o_steps oc) (o_cur oc) = Some s.
+Proof.
+  unfold op_check. destruct (op_is_end o); [discriminate|].
+  intros H. inversion H as [[H1 H2]].
+  destruct (check_timeout_cur (with_cur o (o_cur o + finished_prefix r (skipn (o_cur o) (o_steps o))))) as [A B].
+  rewrite A, B. cbn [with_cur o_cur o_steps]. reflexivity.
+Qed.
